@@ -1,7 +1,8 @@
 \* one path, three contents (two of the same size), every history of <= 7 mutations / queries / injected rows / carry-overs
 SPECIFICATION Spec
 CONSTANTS
-    Paths = {"p", "q", "r"}
+    Paths = {"p", "q", "r", "o"}
+    StorePaths = {"o"}
     Contents = {"c1", "c2", "c3"}
     Size <- SizeDef
     Algs = {"md5"}
